@@ -17,6 +17,7 @@ type taintCfg struct {
 	inScope   func(*ssa.Function) bool                    // module functions whose bodies are analysed
 	cleanCall func(name string) bool                      // callee whose result is clean whatever its arguments
 	guarded   func(v ssa.Value, use ssa.Instruction) bool // the use of tainted v at `use` is sanitised
+	cleanSite func(ci ssa.CallInstruction) bool           // this very call is a declassifier (e.g. a write into a hash object)
 }
 
 type taintState struct {
@@ -191,6 +192,9 @@ func (t *taintState) call(ci ssa.CallInstruction, v ssa.Value) {
 	if t.cfg.cleanCall != nil && t.cfg.cleanCall(name) {
 		return
 	}
+	if t.cfg.cleanSite != nil && t.cfg.cleanSite(ci) {
+		return
+	}
 	if strings.HasPrefix(name, "builtin.") {
 		switch name {
 		case "builtin.append":
@@ -343,6 +347,9 @@ func (t *taintState) cleanValue(v ssa.Value) bool {
 		v = ex.Tuple
 	}
 	if call, ok := v.(*ssa.Call); ok && t.cfg.cleanCall != nil && t.cfg.cleanCall(callName(&call.Call)) {
+		return true
+	}
+	if call, ok := v.(*ssa.Call); ok && t.cfg.cleanSite != nil && t.cfg.cleanSite(call) {
 		return true
 	}
 	return false
